@@ -574,7 +574,7 @@ def staticReply (P : Program) (obs : Option Obs) : String :=
         | [] => (match k.path.getLast? with | some c => ρc.idx c k.forks | none => [])
         | r => r
       let ρ := storeOfRun fqid nodes occ O I
-      let fragR0 := !treeOkList [] s.2 && callGraphAcyclicB P && wellTypedEB P && acyclicB P.table &&
+      let fragR0 := !(fragT || fragE) && callGraphAcyclicB P && wellTypedRB P && acyclicB P.table &&
         treeOkPList [] s.2 &&
         decide ((nodes.map fun n => fqid n.path).Nodup) && decide ((occ.map (·.1)).Nodup) &&
         (obs.outs.all fun o => J.clean o.2)
@@ -599,7 +599,7 @@ def staticReply (P : Program) (obs : Option Obs) : String :=
   let why := if frag || fragT || fragE || kindR == "R" then "" else
     if !callGraphAcyclicB P then "call-graph" else
     if !acyclicB P.table then "struct-table" else
-    if !wellTypedEB P then
+    if !wellTypedRB P then
       (if s.2.any hasMapMode then
         (let k := s.2.foldl (fun a t => let x := mapModeKinds t; (a.1 || x.1, a.2.1 || x.2.1, a.2.2 || x.2.2)) (false, false, false)
          s!"typing: a typed-map mode map call (static={k.1} runtime={k.2.1} nested-below={k.2.2})") else "typing: " ++ firstBadBind P) else
